@@ -59,7 +59,8 @@ func checkC02(c *Ctx) {
 	c.SetRule("generated multi-package programs whose identifiers, file, directory, module and package names are unique >=11-char random markers; functions and methods are //go:noinline and types are boxed into interfaces " +
 		"so that a regular *stripped* build provably contains the names. Oracle: exact byte search of every must-hide marker, the absolute source directory, TMPDIR, 'garble-shared', the Go version string; " +
 		"`go version -m` == unknown; empty build ID; no .symtab/.strtab/.debug_* sections. distinct_nontrivial = distinct must-hide markers that occur in the regular `-trimpath -ldflags='-s -w'` binary of the same program " +
-		"(so the scan would have seen them had they not been obfuscated).")
+		"(so the scan would have seen them had they not been obfuscated). Special-name scenario: a 5-package reflection-free program declares a type, a noinline function, a struct field and a variable named after every identifier-like string literal of garble's own sources (names it special-cases for std packages: Method, FS, align64, ...) and common Go API names; " +
+		"per name and kind the name-map oracle (garbled sources kept by the hook) must show a changed name or the binary must lack `<obfuscated import path>.<name>` (pclntab), the type-string record `*<obfuscated package>.<name>` and the field-name record.")
 	c.Assume("programs never pass user types to reflecting APIs", "markers carry >=53 bits of entropy, so chance matches are impossible")
 	g := buildGarble("", false)
 	cfgs := []Config{K0, K5}
@@ -183,6 +184,12 @@ func checkC02(c *Ctx) {
 			}
 		}
 	}
+	// Objects of user packages named like identifiers that garble special-cases for std packages.
+	spCfgs := []Config{K0}
+	if !c.Quick() {
+		spCfgs = []Config{K0, K5}
+	}
+	c02SpecialNames(c, g, pool, spCfgs)
 	c.Extra("observable_marker_checks_by_class", classCount)
 	c.Extra("go_version_string_searched", goVersion)
 }
